@@ -4,7 +4,7 @@
 (* point, listings.  The driver does not use the model's predictions.           *)
 EXTENDS GroupLog
 
-CONSTANTS MaxLen, WithList, Ops   \* Ops: set of operation kinds used by this configuration
+CONSTANTS MaxLen, WithList, WithRaw, Ops   \* Ops: set of operation kinds used by this configuration
 VARIABLE h
 gvars == <<vars, h>>
 Rec(act, d, s, x, y) == h' = Append(h, [act |-> act, d |-> d, s |-> s, x |-> x, y |-> y, res |-> res'])
@@ -14,10 +14,15 @@ GIdx(g) == CASE g = "g1" -> 1 [] g = "g2" -> 2
 GInit == Init /\ h = <<>>
 GNext == /\ Len(h) < MaxLen
          /\ \E d \in Devs :
-              \/ \E op \in Ops \cap {"en", "dis", "rs", "msg"} : SwitchOp(d, op) /\ Rec("op", d, op, 0, 0)
+              \/ \E op \in Ops \cap {"en", "dis", "rs", "msg", "adddev"} : SwitchOp(d, op) /\ Rec("op", d, op, 0, 0)
+              \* a device writes to a contact / multi-member group only after it announced itself (as ActivateGroupContext does)
+              \/ \E op \in Ops \cap {"alias", "secretA", "secretB", "meta", "claim"} :
+                    /\ \E e \in have[d] : entries[e].ev = "adddev" /\ entries[e].w = d
+                    /\ SwitchOp(d, op) /\ Rec("op", d, op, 0, 0)
               \/ \E op \in Ops \cap ContactEvs, c \in Contacts : ContactOp(d, op, c) /\ Rec("op", d, op, CIdx(c), 0)
               \/ \E op \in Ops \cap {"join", "leave"}, g \in Groups : GroupOp(d, op, g) /\ Rec("op", d, op, GIdx(g), 0)
               \/ \E e \in 1..MaxEntries : Deliver(d, e) /\ Rec("deliver", d, "-", e, 0)
+              \/ (WithRaw /\ \E e \in 1..MaxEntries : DeliverRaw(d, e) /\ Rec("rdeliver", d, "-", e, 0))
               \/ (have[d] # {} /\ Reopen(d) /\ Rec("reopen", d, "-", 0, 0))
               \/ (WithList /\ have[d] # {} /\ \E since, until \in 0..(MaxEntries + 1), rev \in BOOLEAN :
                     List(d, since, until, rev) /\ Rec("list", d, IF rev THEN "rev" ELSE "fwd", since, until))
